@@ -589,6 +589,8 @@ func TestC13Perm(t *testing.T) {
 				nontriv = true
 			}
 		}
-		rec.Case(nontriv, canonJSON(s.describe())+fmt.Sprint(chmods), func() any { return map[string]any{"state": s.describe(), "chmod": chmods, "permDirs": fmt.Sprint(s.permDirs)} }, labels...)
+		rec.Case(nontriv, canonJSON(s.describe())+fmt.Sprint(chmods), func() any {
+			return map[string]any{"state": s.describe(), "chmod": chmods, "permDirs": fmt.Sprint(s.permDirs)}
+		}, labels...)
 	})
 }
